@@ -7,6 +7,7 @@ import (
 	"encoding/json"
 	"fmt"
 	"math/rand"
+	"os"
 	"reflect"
 	"strings"
 	"sync"
@@ -213,9 +214,34 @@ func cmdConc(args []string) {
 	cfg := corpusCfg("multi")
 	nontriv, dropped, nruns := 0, 0, 0
 	var samples []any
-	for i := 0; i < n; i++ {
+	// members of an exhaustive SemMC.tla family (printed by TLC) as further cases: programs without variables
+	var fam []*Case
+	if fp := os.Getenv("VERIF_CONC_FAMILY"); fp != "" {
+		k := 0
+		readLines(fp, func(b []byte) {
+			var g struct {
+				Stmts []any                       `json:"stmts"`
+				Bal   map[string]map[string]int64 `json:"bal"`
+			}
+			if err := json.Unmarshal(b, &g); err != nil {
+				die(2, "bad family line: %v", err)
+			}
+			k++
+			if k%3 != 0 { // a third of the family is plenty here
+				return
+			}
+			normNums(g.Stmts)
+			c := &Case{ID: n + len(fam), Corpus: "family", Decls: []any{}, Stmts: g.Stmts, VarVals: map[string]J{}, RawVars: map[string]string{}, Bal: g.Bal,
+				Meta: map[string]map[string]string{}}
+			c.Text = printProgram(c.Decls, c.Stmts)
+			fam = append(fam, c)
+		})
+	}
+	for i := 0; i < n+len(fam); i++ {
 		var c *Case
-		if i%2 == 0 {
+		if i >= n {
+			c = fam[i-n]
+		} else if i%2 == 0 {
 			c = genCase(r, cfg, i)
 		} else {
 			c = genStoreCase(r, i)
